@@ -2239,6 +2239,12 @@ namespace awkward {
       }
     }
     else {
+      if (advanced.length() != lenstarts) {
+        throw std::invalid_argument(
+          std::string("cannot fit the pairing of an earlier array index (length ")
+          + std::to_string(advanced.length()) + std::string(") to this dimension (length ")
+          + std::to_string(lenstarts) + std::string(")") + FILENAME(__LINE__));
+      }
       Index64 nextcarry(lenstarts);
       Index64 nextadvanced(lenstarts);
       struct Error err = kernel::ListArray_getitem_next_array_advanced_64<T>(
